@@ -241,24 +241,24 @@ theorem C04_logical_no_escape_partial (W : World V) (L : Legacy) (hL : L.allOfRa
 
 /-! ## fields, data classes -/
 
-theorem safe_fieldConvert (W : DataWorld V) (o : Opts) (f : FieldDecl V) (t : Ty) (v : V) :
-    Safe (fieldConvert W o f t v) := by
+theorem safe_fieldConvert (W : DataWorld V) (o : Opts) (f : FieldDecl V) (t : Ty) (v : V) (b : Bool) :
+    Safe (fieldConvert W o f t v b) := by
   unfold fieldConvert
   safe_auto
 
 theorem safe_parseValue (W : DataWorld V) (L : Legacy) (hL : L.discLookup = false) (o : Opts)
-    (f : FieldDecl V) (v : V) : Safe (parseValue W L o f v) := by
+    (f : FieldDecl V) (v : V) (b : Bool) : Safe (parseValue W L o f v b) := by
   have h := safe_fieldConvert W o f
   unfold parseValue
   simp only [hL]
   safe_auto
-  all_goals first | exact h _ _ | (simp at *)
+  all_goals first | exact h _ _ _ | (simp at *)
 
 /-- **a field's `parse_value` lets nothing but ParseError out** (any converter, any `to_dict`, any
 discriminator lookup) -/
-theorem C04_parse_value_no_escape (W : DataWorld V) (o : Opts) (f : FieldDecl V) (v : V) :
-    Safe (parseValue W Legacy.none o f v) :=
-  safe_parseValue W Legacy.none rfl o f v
+theorem C04_parse_value_no_escape (W : DataWorld V) (o : Opts) (f : FieldDecl V) (v : V) (asAbsent : Bool) :
+    Safe (parseValue W Legacy.none o f v asAbsent) :=
+  safe_parseValue W Legacy.none rfl o f v asAbsent
 
 theorem safe_parseAddition (W : DataWorld V) (o : Opts) (P : ParserDecl V) (k : Nat) (v : V) :
     Safe (parseAddition W o P k v) := by
@@ -273,23 +273,33 @@ theorem safe_aliasConflict (W : DataWorld V) (L : Legacy) (hL : L.aliasCompare =
 
 def Legacy.dataFixed (L : Legacy) : Bool := !L.aliasCompare && !L.discLookup
 
+theorem safe_dfScan (W : DataWorld V) (L : Legacy) (hL : L.aliasCompare = false) (P : ParserDecl V)
+    (data : List (Nat × V)) : ∀ inputs conflicts, Safe (dfScan W L P data inputs conflicts) := by
+  have hac := safe_aliasConflict W L hL
+  induction data with
+  | nil => intro inputs conflicts; exact safe_pure _
+  | cons kv rest ih =>
+    intro inputs conflicts
+    obtain ⟨key, v⟩ := kv
+    unfold dfScan
+    safe_auto
+    all_goals first | exact ih _ _ | exact hac _ _
+
 theorem safe_dfItems (W : DataWorld V) (L : Legacy) (hL : L.dataFixed = true) (o : Opts) (P : ParserDecl V)
-    (ex : List Nat) (data : List (Nat × V)) : ∀ a, Safe (dfItems W L o P ex data a) := by
+    (ex : List Nat) (cf : List Nat) (inputs : List (Given V)) : ∀ a, Safe (dfItems W L o P ex cf inputs a) := by
   simp [Legacy.dataFixed] at hL
   have hpv := safe_parseValue W L hL.2 o
   have hpa := safe_parseAddition W o P
-  have hac := safe_aliasConflict W L hL.1
-  induction data with
+  induction inputs with
   | nil => intro a; exact safe_pure _
-  | cons kv rest ih =>
+  | cons g rest ih =>
     intro a
-    obtain ⟨key, v⟩ := kv
     unfold dfItems
     safe_auto
-    all_goals first | exact ih _ | exact hpv _ _ | exact hpa _ _ | exact hac _ _
+    all_goals first | exact ih _ | exact hpv _ _ _ | exact hpa _ _
 
-theorem safe_dfMissing (o : Opts) (ex : List Nat) (fs : List (FieldDecl V)) :
-    ∀ a, Safe (dfMissing o ex fs a) := by
+theorem safe_dfMissing (o : Opts) (ex : List Nat) (given : List Nat) (fs : List (FieldDecl V)) :
+    ∀ a, Safe (dfMissing o ex given fs a) := by
   induction fs with
   | nil => intro a; exact safe_pure _
   | cons f fs ih =>
@@ -302,8 +312,8 @@ theorem safe_depsCheck (W : DataWorld V) (o : Opts) (a : Acc V) : Safe (depsChec
   unfold depsCheck
   safe_auto
 
-theorem safe_ffConflicts (W : DataWorld V) (L : Legacy) (hL : L.aliasCompare = false) (o : Opts)
-    (f : FieldDecl V) (value : V) (xs : List V) : Safe (ffConflicts W L o f value xs) := by
+theorem safe_ffConflicts (W : DataWorld V) (L : Legacy) (hL : L.aliasCompare = false)
+    (value : V) (xs : List V) : Safe (ffConflicts W L value xs) := by
   have hac := safe_aliasConflict W L hL
   induction xs with
   | nil => exact safe_pure _
@@ -316,14 +326,14 @@ theorem safe_ffFields (W : DataWorld V) (L : Legacy) (hL : L.dataFixed = true) (
     (data : List (Nat × V)) (fs : List (FieldDecl V)) : ∀ a, Safe (ffFields W L o ex data fs a) := by
   simp [Legacy.dataFixed] at hL
   have hpv := safe_parseValue W L hL.2 o
-  have hfc := safe_ffConflicts W L hL.1 o
+  have hfc := safe_ffConflicts W L hL.1
   induction fs with
   | nil => intro a; exact safe_pure _
   | cons f fs ih =>
     intro a
     unfold ffFields
     safe_auto
-    all_goals first | exact ih _ | exact hpv _ _ | exact hfc _ _ _
+    all_goals first | exact ih _ | exact hpv _ _ _ | exact hfc _ _
 
 theorem safe_ffAddition (W : DataWorld V) (o : Opts) (P : ParserDecl V) (used : List Nat)
     (data : List (Nat × V)) : ∀ acc, Safe (ffAddition W o P used data acc) := by
@@ -339,14 +349,15 @@ theorem safe_ffAddition (W : DataWorld V) (o : Opts) (P : ParserDecl V) (used : 
 
 theorem safe_parseData (W : DataWorld V) (L : Legacy) (hL : L.dataFixed = true) (o : Opts)
     (P : ParserDecl V) (ex : List Nat) (data : List (Nat × V)) : Safe (parseData W L o P ex data) := by
-  have h1 := safe_dfItems W L hL o P ex data
-  have h2 := safe_dfMissing o ex P.fields
+  have h0 := safe_dfScan W L (by simp [Legacy.dataFixed] at hL; exact hL.1) P data
+  have h1 := safe_dfItems W L hL o P ex
+  have h2 := safe_dfMissing (V := V) o ex
   have h3 := safe_depsCheck W o
   have h4 := safe_ffFields W L hL o ex data P.fields
   have h5 := safe_ffAddition W o P
   unfold parseData dataFirstParse fieldFirstParse
   safe_auto
-  all_goals first | exact h1 _ | exact h2 _ | exact h3 _ | exact h4 _ | exact h5 _ _ _
+  all_goals first | exact h0 _ _ | exact h1 _ _ _ | exact h2 _ _ _ | exact h3 _ | exact h4 _ | exact h5 _ _ _
 
 /-- **`parse_data` (data-first and field-first) lets nothing but ParseError out**: every field
 conversion, alias comparison, addition conversion and bookkeeping error is a ParseError -/
@@ -417,7 +428,7 @@ theorem safe_posArgs (W : DataWorld V) (L : Legacy) (hL : L.discLookup = false) 
     intro i args keys
     unfold posArgs
     safe_auto
-    all_goals first | exact ih _ _ _ | exact hpv _ _ | exact hpt _ _
+    all_goals first | exact ih _ _ _ | exact hpv _ _ _ | exact hpt _ _
 
 theorem safe_posOnlyMissing (o : Opts) (F : FuncDecl V) (fs : List (Nat × FieldDecl V)) :
     ∀ args keys, Safe (posOnlyMissing o F fs args keys) := by
@@ -703,18 +714,18 @@ macro "dterm_close" hW:ident : tactic => `(tactic| first
   | exact ($hW).base.conv _ _ | exact ($hW).toDict _ | exact ($hW).castKeys _ | exact ($hW).unpack _
   | exact ($hW).discLookup _ _ | exact ($hW).neq _ _)
 
-theorem term_fieldConvert (W : DataWorld V) (hW : W.Terminates) (o : Opts) (f : FieldDecl V) (t : Ty) (v : V) :
-    Term (fieldConvert W o f t v) := by
+theorem term_fieldConvert (W : DataWorld V) (hW : W.Terminates) (o : Opts) (f : FieldDecl V) (t : Ty) (v : V)
+    (b : Bool) : Term (fieldConvert W o f t v b) := by
   unfold fieldConvert
   term_auto
   all_goals dterm_close hW
 
 theorem term_parseValue (W : DataWorld V) (hW : W.Terminates) (L : Legacy) (o : Opts) (f : FieldDecl V)
-    (v : V) : Term (parseValue W L o f v) := by
+    (v : V) (b : Bool) : Term (parseValue W L o f v b) := by
   have h := term_fieldConvert W hW o f
   unfold parseValue
   term_auto
-  all_goals first | exact h _ _ | dterm_close hW
+  all_goals first | exact h _ _ _ | dterm_close hW
 
 theorem term_parseAddition (W : DataWorld V) (hW : W.Terminates) (o : Opts) (P : ParserDecl V) (k : Nat)
     (v : V) : Term (parseAddition W o P k v) := by
@@ -728,22 +739,32 @@ theorem term_aliasConflict (W : DataWorld V) (hW : W.Terminates) (L : Legacy) (a
   term_auto
   all_goals dterm_close hW
 
-theorem term_dfItems (W : DataWorld V) (hW : W.Terminates) (L : Legacy) (o : Opts) (P : ParserDecl V)
-    (ex : List Nat) (data : List (Nat × V)) : ∀ a, Term (dfItems W L o P ex data a) := by
-  have hpv := term_parseValue W hW L o
-  have hpa := term_parseAddition W hW o P
+theorem term_dfScan (W : DataWorld V) (hW : W.Terminates) (L : Legacy) (P : ParserDecl V)
+    (data : List (Nat × V)) : ∀ inputs conflicts, Term (dfScan W L P data inputs conflicts) := by
   have hac := term_aliasConflict W hW L
   induction data with
-  | nil => intro a; exact term_pure _
+  | nil => intro inputs conflicts; exact term_pure _
   | cons kv rest ih =>
-    intro a
+    intro inputs conflicts
     obtain ⟨key, v⟩ := kv
+    unfold dfScan
+    term_auto
+    all_goals first | exact ih _ _ | exact hac _ _
+
+theorem term_dfItems (W : DataWorld V) (hW : W.Terminates) (L : Legacy) (o : Opts) (P : ParserDecl V)
+    (ex : List Nat) (cf : List Nat) (inputs : List (Given V)) : ∀ a, Term (dfItems W L o P ex cf inputs a) := by
+  have hpv := term_parseValue W hW L o
+  have hpa := term_parseAddition W hW o P
+  induction inputs with
+  | nil => intro a; exact term_pure _
+  | cons g rest ih =>
+    intro a
     unfold dfItems
     term_auto
-    all_goals first | exact ih _ | exact hpv _ _ | exact hpa _ _ | exact hac _ _
+    all_goals first | exact ih _ | exact hpv _ _ _ | exact hpa _ _
 
-theorem term_dfMissing (o : Opts) (ex : List Nat) (fs : List (FieldDecl V)) :
-    ∀ a, Term (dfMissing o ex fs a) := by
+theorem term_dfMissing (o : Opts) (ex : List Nat) (given : List Nat) (fs : List (FieldDecl V)) :
+    ∀ a, Term (dfMissing o ex given fs a) := by
   induction fs with
   | nil => intro a; exact term_pure _
   | cons f fs ih =>
@@ -752,8 +773,8 @@ theorem term_dfMissing (o : Opts) (ex : List Nat) (fs : List (FieldDecl V)) :
     term_auto
     all_goals exact ih _
 
-theorem term_ffConflicts (W : DataWorld V) (hW : W.Terminates) (L : Legacy) (o : Opts) (f : FieldDecl V)
-    (value : V) (xs : List V) : Term (ffConflicts W L o f value xs) := by
+theorem term_ffConflicts (W : DataWorld V) (hW : W.Terminates) (L : Legacy)
+    (value : V) (xs : List V) : Term (ffConflicts W L value xs) := by
   have hac := term_aliasConflict W hW L
   induction xs with
   | nil => exact term_pure _
@@ -765,14 +786,14 @@ theorem term_ffConflicts (W : DataWorld V) (hW : W.Terminates) (L : Legacy) (o :
 theorem term_ffFields (W : DataWorld V) (hW : W.Terminates) (L : Legacy) (o : Opts) (ex : List Nat)
     (data : List (Nat × V)) (fs : List (FieldDecl V)) : ∀ a, Term (ffFields W L o ex data fs a) := by
   have hpv := term_parseValue W hW L o
-  have hfc := term_ffConflicts W hW L o
+  have hfc := term_ffConflicts W hW L
   induction fs with
   | nil => intro a; exact term_pure _
   | cons f fs ih =>
     intro a
     unfold ffFields
     term_auto
-    all_goals first | exact ih _ | exact hpv _ _ | exact hfc _ _ _
+    all_goals first | exact ih _ | exact hpv _ _ _ | exact hfc _ _
 
 theorem term_ffAddition (W : DataWorld V) (hW : W.Terminates) (o : Opts) (P : ParserDecl V) (used : List Nat)
     (data : List (Nat × V)) : ∀ acc, Term (ffAddition W o P used data acc) := by
@@ -788,13 +809,14 @@ theorem term_ffAddition (W : DataWorld V) (hW : W.Terminates) (o : Opts) (P : Pa
 
 theorem term_parseData (W : DataWorld V) (hW : W.Terminates) (L : Legacy) (o : Opts) (P : ParserDecl V)
     (ex : List Nat) (data : List (Nat × V)) : Term (parseData W L o P ex data) := by
-  have h1 := term_dfItems W hW L o P ex data
-  have h2 := term_dfMissing o ex P.fields
+  have h0 := term_dfScan W hW L P data
+  have h1 := term_dfItems W hW L o P ex
+  have h2 := term_dfMissing (V := V) o ex
   have h4 := term_ffFields W hW L o ex data P.fields
   have h5 := term_ffAddition W hW o P
   unfold parseData dataFirstParse fieldFirstParse depsCheck
   term_auto
-  all_goals first | exact h1 _ | exact h2 _ | exact h4 _ | exact h5 _ _ _
+  all_goals first | exact h0 _ _ | exact h1 _ _ _ | exact h2 _ _ _ | exact h4 _ | exact h5 _ _ _
 
 /-- **data-class construction terminates whenever the field converters and the post-init hook do** -/
 theorem C04_class_init_terminates (W : DataWorld V) (hW : W.Terminates) (L : Legacy) (o : Opts)
@@ -821,7 +843,7 @@ theorem term_posArgs (W : DataWorld V) (hW : W.Terminates) (L : Legacy) (o : Opt
     intro i args keys
     unfold posArgs parsePosType
     term_auto
-    all_goals first | exact ih _ _ _ | exact hpv _ _ | dterm_close hW
+    all_goals first | exact ih _ _ _ | exact hpv _ _ _ | dterm_close hW
 
 theorem term_posOnlyMissing (o : Opts) (F : FuncDecl V) (fs : List (Nat × FieldDecl V)) :
     ∀ args keys, Term (posOnlyMissing o F fs args keys) := by
@@ -955,8 +977,8 @@ theorem C04_legacy_alias_compare_witness :
 
 /-- discriminator value that cannot be hashed -/
 theorem C04_legacy_discriminator_witness :
-    (parseValue wData { discLookup := true } {} { id := 0, disc := true } 5 {}).1.escapes = true
-    ∧ (parseValue wData Legacy.none {} { id := 0, disc := true } 5 {}).1.escapes = false := by
+    (parseValue wData { discLookup := true } {} { id := 0, disc := true } 5 false {}).1.escapes = true
+    ∧ (parseValue wData Legacy.none {} { id := 0, disc := true } 5 false {}).1.escapes = false := by
   decide
 
 /-! ## non-vacuity of the hypotheses used above -/
